@@ -20,6 +20,7 @@ func c15(c *eng.Ctx, r *eng.Report) {
 		"R15.2 sibling agreement — both block-signing handlers that call SignInfo.VerifySign also compare SignInfo.GetDataHash() with a locally recomputed hash; " +
 		"R15.3 the member key comes from GetMemberSignPubKey(group, signer) with its ok result tested, and the generator refuses duplicates before inserting; " +
 		"R15.4 round2 verifies both recovered signatures under the group key before the block is handed to the chain; " +
+		"R15.6 an early verify message is parked for replay whatever it claims — no condition derived from the unverified message guards the parking; " +
 		"R15.5 SignInfo.VerifySign consults no process-local state (its verdict depends only on key, hash and signature). " +
 		"Not decided: recovery correctness (C13), network-level behaviour."
 	r.Assume = []string{"groupsig.VerifySig is sound (C14)", "SignInfo.VerifySign(pk) = VerifySig(pk, dataHash, signature)"}
@@ -28,6 +29,75 @@ func c15(c *eng.Ctx, r *eng.Report) {
 	c15Generator(c, r)
 	c15Round2(c, r)
 	c15Purity(c, r)
+	c15Parking(c, r)
+}
+
+// c15Parking: a verify message that arrives before its party exists is parked
+// and replayed later; whether it is kept may depend on the party bookkeeping
+// only, never on what the (still unverified) message claims — a filter on the
+// claimed signer lets one member pre-file garbage under every name and starve
+// the honest shares.
+func c15Parking(c *eng.Ctx, r *eng.Report) {
+	const rule = "R15.6"
+	r.Min(rule, 1)
+	fn := c.Func("consensus/logical", "(*Processor).loadOrNewSignParty")
+	if !r.Anchor(fn != nil, rule, "(*Processor).loadOrNewSignParty") {
+		return
+	}
+	var msg *ssa.Parameter
+	for _, p := range fn.Params {
+		if p.Name() == "msg" {
+			msg = p
+		}
+	}
+	n := 0
+	for _, s := range eng.Sites(fn) {
+		if !strings.HasSuffix(s.Name(), "lru.Cache).Add") || !strings.HasSuffix(eng.Desc(s.Common().Args[0]), ".futureMessages") {
+			continue
+		}
+		n++
+		bad := ""
+		for _, cd := range eng.CondsAt(s.Instr) {
+			if msg != nil && valueDerivesFromValue(cd.V, msg) {
+				bad = eng.Desc(cd.V)
+			}
+		}
+		// any branch on the message's content from which the parking is reachable on one side only
+		reach := func(from *ssa.BasicBlock) bool {
+			seen := map[*ssa.BasicBlock]bool{}
+			var walk func(b *ssa.BasicBlock) bool
+			walk = func(b *ssa.BasicBlock) bool {
+				if b == s.Instr.Block() {
+					return true
+				}
+				if seen[b] {
+					return false
+				}
+				seen[b] = true
+				for _, x := range b.Succs {
+					if walk(x) {
+						return true
+					}
+				}
+				return false
+			}
+			return walk(from)
+		}
+		for _, b := range fn.Blocks {
+			iff, isIf := b.Instrs[len(b.Instrs)-1].(*ssa.If)
+			if !isIf || msg == nil || !valueDerivesFromValue(iff.Cond, msg) {
+				continue
+			}
+			if reach(b.Succs[0]) != reach(b.Succs[1]) {
+				bad = eng.Desc(iff.Cond)
+			}
+		}
+		// what is parked is the message itself, appended to what was parked before
+		r.Check(bad == "", rule, "loadOrNewSignParty:park-unconditionally", c.Pos(s.Pos()), "an early message is parked whatever it claims (conditions involve the party tables and isNew only)", "whether an early verify message is parked depends on "+bad+", i.e. on the content of the message before any signature was verified: a Byzantine member can pre-file messages naming other members so that their genuine shares are discarded, the threshold is never reached and the block does not finalise")
+	}
+	if n == 0 {
+		r.Fail(rule, "loadOrNewSignParty:park", c.Pos(fn.Pos()), "no futureMessages.Add found in loadOrNewSignParty: early messages are no longer parked (or the parking moved and must be re-reviewed)")
+	}
 }
 
 // c15Purity: whether a share verifies is a function of (key, data hash, signature) only.
